@@ -1,12 +1,13 @@
-// Witness w_inj: states with k = 0,1,2,3 injected bases; every callback kind is defined at every level (C15).
+// Witness w_inj: states with k = 0,1,2,3 injected bases; every callback kind is defined at every level (C15);
+// N0, N1: states with k = 0,1 that define no callback of their own (what `Head::X` resolves to then must be a library no-op).
 #include "w_common.hpp"
 
 namespace inj {
 
 using M = ffsm2::Machine;
 
-struct Top; struct K0; struct K1; struct K2; struct K3;
-using FSM = M::Root<Top, K0, K1, K2, K3>;
+struct Top; struct K0; struct K1; struct K2; struct K3; struct N0; struct N1;
+using FSM = M::Root<Top, K0, K1, K2, K3, N0, N1>;
 
 #define ALL_CALLBACKS                                                   \
 	void entryGuard(GuardControl&) {}                                   \
@@ -37,6 +38,8 @@ struct K0  : FSM::State          { ALL_CALLBACKS };
 struct K1  : FSM::StateT<I1>     { ALL_CALLBACKS };
 struct K2  : FSM::StateT<I1, I2> { ALL_CALLBACKS };
 struct K3  : FSM::StateT<I1, I2, I3> { ALL_CALLBACKS };
+struct N0  : FSM::State          { int own = 0; };
+struct N1  : FSM::StateT<I1>     { int own = 0; };
 
 inline void use() {
 	FSM::Instance machine;
